@@ -122,6 +122,8 @@ def run_once(mod, prop, tape, tier, wall_limit=None):
     """Execute one simulated run. Returns Result. Harness exceptions propagate."""
     if wall_limit is None:
         wall_limit = getattr(mod, 'WALL_LIMIT', {}).get((prop, tier), 90)
+        if os.environ.get('VERIF_WALL_LIMIT_TEST'):       # self-test of the timeout path only
+            wall_limit = float(os.environ['VERIF_WALL_LIMIT_TEST'])
     old = signal.signal(signal.SIGALRM, _alarm)
     signal.setitimer(signal.ITIMER_REAL, wall_limit)
     try:
@@ -174,7 +176,7 @@ def _chunk(args):
         'runs': 0, 'sim_time': 0.0, 'callbacks': 0, 'faults': collections.Counter(),
         'probes': collections.Counter(), 'inter': set(), 'work': set(), 'nontrivial': 0,
         'viol': [], 'errors': [], 'samples': [], 'subs': collections.Counter(), 'digests': {},
-        'known_hits': collections.Counter(), 'runs_with_fault': 0, 'tape_len': 0,
+        'known_hits': collections.Counter(), 'runs_with_fault': 0, 'tape_len': 0, 'timeouts': [],
     }
     for i in range(start, start + count):
         seed = derive_seed(base_seed, i, prop)
@@ -182,7 +184,9 @@ def _chunk(args):
         try:
             r = run_once(mod, prop, tape, tier)
         except HarnessTimeout as e:
-            agg['errors'].append({'index': i, 'seed': seed, 'error': 'timeout: %s' % e})
+            # not a verdict and not yet an error: the run is repeated alone with a much larger limit after the batch
+            # (a loaded machine must not turn into a failing check; a run that is stuck for real still ends as exit 2)
+            agg['timeouts'].append({'index': i, 'seed': seed})
             continue
         except BaseException as e:           # harness bug: never a verdict
             agg['errors'].append({'index': i, 'seed': seed,
@@ -222,6 +226,22 @@ def _chunk(args):
     agg['inter'] = list(agg['inter'])
     agg['work'] = list(agg['work'])
     return agg
+
+
+def _retry_job(args):
+    """Re-execute one run that hit the per-run wall limit, alone, with 8 x the limit. Returns 'ok' | 'timeout' | text."""
+    seed, = args
+    mod, prop, tier = _W['mod'], _W['prop'], _W['tier']
+    limit = getattr(mod, 'WALL_LIMIT', {}).get((prop, tier), 90) * 8
+    tape = Tape(seed)
+    try:
+        r = run_once(mod, prop, tape, tier, wall_limit=limit)
+    except HarnessTimeout:
+        return 'timeout', None
+    except BaseException as e:
+        return ''.join(traceback.format_exception(type(e), e, e.__traceback__))[-3000:], None
+    mine = [v for v in r.violations if v.prop == prop and match_known(v, _W['known']) is None]
+    return 'ok', ({'seed': seed, 'tape': list(tape.values), 'violations': [v.to_json() for v in mine]} if mine else None)
 
 
 # ----------------------------------------------------------------------------------------
@@ -351,7 +371,7 @@ def ensure_env():
         os.execve(sys.executable, [sys.executable, '-W', 'ignore'] + sys.argv, env)
 
 
-def fresh_replay(prop, tier, path, timeout=300):
+def fresh_replay(prop, tier, path, timeout=1200):
     """Replay a file in a fresh interpreter; returns (exitcode, stdout)."""
     env = dict(os.environ)
     env.pop('VERIF_NO_REEXEC', None)
@@ -442,7 +462,7 @@ def main(argv=None):
         'runs': 0, 'sim_time': 0.0, 'callbacks': 0, 'faults': collections.Counter(),
         'probes': collections.Counter(), 'inter': set(), 'work': set(),
         'viol': [], 'errors': [], 'samples': [], 'subs': collections.Counter(), 'digests': {},
-        'known_hits': collections.Counter(), 'runs_with_fault': 0, 'tape_len': 0,
+        'known_hits': collections.Counter(), 'runs_with_fault': 0, 'tape_len': 0, 'timeouts': [], 'timeouts_recovered': 0,
     }
     known = load_known(prop)
     next_index = 0
@@ -486,6 +506,7 @@ def main(argv=None):
                     total['work'].update(agg['work'])
                     total['digests'].update(agg['digests'])
                     total['errors'].extend(agg['errors'])
+                    total['timeouts'].extend(agg['timeouts'])
                     if len(total['samples']) < 4:
                         total['samples'].extend(agg['samples'])
                     total['viol'].extend(agg['viol'])
@@ -501,6 +522,23 @@ def main(argv=None):
             print('HARNESS-ERROR worker died: %r' % (e,))
             return 2
 
+        # runs that hit the wall limit while the pool was busy: repeat alone with 8 x the limit
+        for t in total['timeouts'][:6]:
+            try:
+                verdict, viol = ex.submit(_retry_job, (t['seed'],)).result(timeout=3 * 3600)
+            except Exception as e2:
+                verdict, viol = repr(e2), None
+            if verdict == 'ok':
+                total['timeouts_recovered'] += 1
+                total['runs'] += 1
+                if viol is not None:
+                    viol['index'] = t['index']
+                    total['viol'].append(viol)
+            else:
+                total['errors'].append({'index': t['index'], 'seed': t['seed'],
+                                        'error': 'run exceeds the wall limit even when repeated alone with 8 x the limit (%s)' % verdict})
+        if total['timeouts']:
+            print('note: %d run(s) hit the per-run wall limit under load; %d repeated alone and completed' % (len(total['timeouts']), total['timeouts_recovered']))
         exit_code = 0
         replay_paths = []
         if total['errors']:
@@ -526,7 +564,7 @@ def main(argv=None):
                     sh = {'values': item['tape'], 'execs': 0, 'reproduced': False, 'error': repr(e2)}
                 values = sh['values']
                 try:
-                    rep = ex.submit(_replay_job, values).result(timeout=180)
+                    rep = ex.submit(_replay_job, values).result(timeout=1200)
                 except Exception as e2:
                     rep = {'violations': [], 'trace': ['replay failed: %r' % (e2,)], 'digest': None, 'labels': []}
                 vv = [x for x in rep['violations'] if x['class'] == cls and x['sig'] == vsig] or [v]
